@@ -22,7 +22,7 @@ SRC_SPEC = ("crc.go:*;encoding.go:*;modbus.go:mapExceptionCodeToError,mapErrorTo
 def regen_src(verif_dir, repo_dir, goenv):
     """Returns None on success, an error string otherwise."""
     hd = os.path.join(verif_dir, "harness")
-    gen = os.path.join(verif_dir, "coq", "theories", "Gen")
+    gen = os.path.join(os.environ.get("VERIF_COQ") or os.path.join(verif_dir, "coq"), "theories", "Gen")
     os.makedirs(gen, exist_ok=True)
     tmp = tempfile.mkdtemp(prefix="gosrc-")
     try:
